@@ -739,6 +739,37 @@ fn c10_thresholds() {
     assert!(ideal >= CELL_HEADER_SIZE, "ideal_payload_not_smaller_than_a_cell_header");
 }
 
+// The tree inserts first and balances afterwards (`Btree::insert_cell`: push / insert, then `balance`), and rebalancing
+// pushes separator cells - copies of leaf cells, overflow pointer included - into the parent without consulting its free
+// space.  That protocol needs: a page that is NOT in overflow state still has room for the largest cell the tree stores,
+// i.e. header + ideal payload + the 8-byte overflow page id (`CellBuilder::build_cell`: `new_overflow(&payload[..max], id)`)
+// + slot.  Otherwise the insert fails with StorageFull before the split that would have made room.
+fn c10_room_law(mc_lo: usize, mc_hi: usize) {
+    let k: usize = kani::any();
+    let mc: usize = kani::any();
+    kani::assume(k >= 1 && k <= 16);
+    kani::assume(mc >= mc_lo && mc <= mc_hi);
+    let ps = k * 4096;
+    kani::cover!(true, "reach");
+    let us = BtreePage::usable_space(ps);
+    let ot = BtreePage::overflow_threshold(ps);
+    let ideal = BtreePage::ideal_max_payload_size(ps, mc);
+    let largest_cell = CELL_HEADER_SIZE + ideal + mem::size_of::<PageId>() + C10_SLOT;
+    assert!(ot + largest_cell <= us, "page_below_overflow_threshold_has_room_for_the_largest_cell");
+}
+// @obl harness=c10_room_for_largest_cell id=C10.thresholds[room_for_largest_cell/min_keys>=5] tier=quick native=c10_large_rows_insert funcs="BtreeOps::overflow_threshold,BtreeOps::ideal_max_payload_size,MemBlock::usable_space" bounds="page size = k * 4096 for k in 1..=16, min_cells in 5..=16"
+#[kani::proof]
+#[kani::unwind(2)]
+fn c10_room_for_largest_cell() {
+    c10_room_law(5, 16);
+}
+// @obl harness=c10_find_room_for_largest_cell id=C10.thresholds[room_for_largest_cell/min_keys<=4] tier=quick native=c10_large_rows_insert funcs="BtreeOps::overflow_threshold,BtreeOps::ideal_max_payload_size,MemBlock::usable_space" bounds="page size = k * 4096 for k in 1..=16, min_cells in 2..=4 (2 is what DBConfig clamps to, 3 the default)" assume="region: min_keys <= 4"
+#[kani::proof]
+#[kani::unwind(2)]
+fn c10_find_room_for_largest_cell() {
+    c10_room_law(2, 4);
+}
+
 // ---- C10.cell_codec ---------------------------------------------------------------------------------------------------
 fn c10_bytes_eq(a: &[u8], b: &[u8]) -> bool {
     if a.len() != b.len() {
